@@ -687,6 +687,20 @@ func (s *storeWrap) Scan(f func(sts.File) bool) ([]sts.File, time.Time, error) {
 	return s.FileSource.Scan(f)
 }
 
+// Sync (the sender compares a file with its cache entry) is an environment action too: the
+// alternative "delay:<seconds>" makes this one call slow (a sluggish network file system, a
+// descheduled thread), which opens the windows between a check and the act that relies on it.
+func (s *storeWrap) Sync(f sts.File) (sts.File, error) {
+	alt := s.r.common(s.gen, "sync", f.GetName(), append([]string{"delay:45"}, genericMenu...))
+	if strings.HasPrefix(alt, "delay:") {
+		var secs int
+		fmt.Sscanf(alt[6:], "%d", &secs)
+		time.Sleep(time.Duration(secs) * time.Second)
+		s.r.senderGone(s.gen)
+	}
+	return s.FileSource.Sync(f)
+}
+
 func (s *storeWrap) Remove(f sts.File) error {
 	s.r.common(s.gen, "remove", f.GetName(), genericMenu)
 	if h := s.r.onRemove; h != nil {
